@@ -37,6 +37,18 @@ CLAIMED = {
    text="Theorems about the byte-offset model of TbfMemoryBlock and its four sub-block kinds (accessor in block, blocks disjoint and aligned, trailer inside the allocation in every state reachable by resets, trailer round trip); the extracted model is compared with the real blocks on reset/move/copy+view sequences and every group buffer of real trees is copied and re-viewed.",
    note="Trusted: Coq kernel, extraction, OCaml driver, harnesses h_mem / h_tree, python oracle. Memory is modelled as 8-byte trailer words addressed by byte offset; element payload bytes are compared by the harness (digest), not modelled.",
    technique="Coq proof of layout arithmetic + extracted-model differential test + copy/view oracle"),
+ "C09": dict(level="proof", ref="DESIGN.md §6 C09",
+   text="Executable Gallina model of the sequential target/source executor (two trees; lists built on target groups, mapped onto source groups; one-sided direct interactions) run against the real TbfAlgorithmTsm with the TraceKernel for independent source/target distributions and staged histories; every target must hold every source exactly once (value and free-kernel replay oracles). Shared wrappers/drivers are covered by the C01 refinement theorems.",
+   note="As C01. The TSM-specific composition theorem is not yet proved (DESIGN.md log); OpenMP-TSM is covered in C03.",
+   technique="Coq model (shared proved wrappers) + extracted-model trace differential + exactly-once oracle"),
+ "C13": dict(level="proof", ref="DESIGN.md §6 C13",
+   text="Theorems: rebuild on edited positions yields a tree satisfying the full invariant with every particle kept once under its original index in the leaf of its new position, for any move/rebuild history; an execution afterwards is exactly-once. Implementation: random displacement histories (moves emptying/creating leaves, changing group counts), repeated cycles; structure, placement, data bits and preserved results are checked.",
+   note="As C07. rebuild() duplicates the constructor's code; it is modelled by the constructor model and tied by correspondence.",
+   technique="Coq proof + extracted-model differential on move/rebuild histories + oracle"),
+ "C17": dict(level="proof", ref="DESIGN.md §6 C17",
+   text="Theorem export_spec (entry i = values of particle i, any value count, any ordering) about the model of the export loops, plus the refutation of the pre-repair index expression; implementation: real getAllParticlesData/Rhs under ASan before/after rebuild, identity and bit-exact value checks.",
+   note="As C07. The defect found (transposed indexing, out of bounds) is repaired by a fix: commit and listed as fixed in known_findings.json.",
+   technique="Coq proof + differential test under ASan"),
 }
 NOT_YET = {}
 ALL = ["C%02d" % i for i in range(1, 21)]
